@@ -11,6 +11,7 @@ UNITS = {
     "time_locks": {"template": "contracts/time_locks.vrs", "rlimit": 30},
     "int_encoders": {"template": "contracts/int_encoders.vrs", "rlimit": 30},
     "conditions_parse": {"template": "contracts/conditions_parse.vrs", "rlimit": 60},
+    "conditions_effects": {"template": "contracts/conditions_effects.vrs", "rlimit": 120},
     "costs": {"template": "contracts/costs.vrs", "rlimit": 30},
     "blob_cache": {"template": "contracts/blob_cache.vrs", "rlimit": 60},
     "bls_cache": {"template": "contracts/bls_cache.vrs", "rlimit": 30},
@@ -54,8 +55,8 @@ PROPS = {
         "level": "proof",
         "technique": "Verus contracts on the real check_time_locks (extracted verbatim): iff-postcondition against per-assertion saturating-arithmetic spec, loop invariant over all spends",
         "level_text": "Deductive proof (Verus/Z3) over all inputs: check_time_locks returns Ok exactly when every folded assertion holds with saturating sums; unbounded in number of spends and in all u32/u64 values.",
-        "level_note": "Assumes vstd HashMap model and key model for Bytes32; nowrap=true mode only; folding in parse_conditions is covered by the conditions units when built.",
-        "components": [V("time_locks")],
+        "level_note": "Assumes vstd HashMap model and key model for Bytes32; nowrap=true mode only. Folding (max for after-locks, min for before-locks, birth agreement, impossible-window rejection, relative-condition mark) is proved for parse_conditions against the effect spec; the spec-level lemma fold-then-check == check-each and the ephemeral check in validate_conditions are not yet machine-checked.",
+        "components": [V("time_locks"), V("conditions_effects")],
         "assumptions": [
             "vstd HashMap model; obeys_key_model::<Bytes32>() assumed (derived Hash/Eq on a byte array)",
             "nowrap=true only (legacy wrapping mode is outside the statement)",
@@ -88,15 +89,17 @@ PROPS["C11"] = {
 PROPS["C01"] = {
     "level": "proof",
     "technique": "Verus contracts on the real condition parser (parse_opcode, sanitizers, list helpers, SpendId::parse, parse_args extracted verbatim) proved equal to a table-driven rule spec over all allocator trees, opcodes and flag words",
-    "level_text": "Deductive proof (Verus/Z3), unbounded in tree shape and flags: each condition is accepted or rejected and decoded exactly as the rule table (DESIGN Appendix A) prescribes. Tier 1 (per-condition parsing) is proved; per-spend/bundle effects (parse_conditions, validate_conditions) are listed under not_covered until their unit closes.",
+    "level_text": "Deductive proof (Verus/Z3), unbounded in tree shape, list length and flags: each condition is accepted or rejected and decoded exactly as the rule table (DESIGN Appendix A) prescribes (tier 1, iff), and whenever parse_conditions / process_single_spend accept a spend, its summary (costs, relative/absolute locks, birth assertions, reserved fee, added amounts, created-coin set, coin identity) equals the fold of the per-condition effect spec over the condition list (tier 2).",
     "level_note": "Assumed: clvmr Allocator accessor contracts (abstract immutable tree), bitflags semantics with constants read from flags.rs each run, 2-byte cost table entries (decided by native-eval under C04). Error codes are not part of the contract, accept/reject and the decoded value are.",
-    "components": [V("conditions_parse")],
+    "components": [V("conditions_effects")],
     "assumptions": [
         "clvmr::Allocator accessor contracts over an abstract immutable tree (shims/clvmr.rs)",
         "bitflags contains() == bit test on the constants read from flags.rs",
+        "std HashSet/HashMap insertion semantics (OSet/OMap/NewCoinSet shims), std max/min, to_key and check_agg_sig_unsafe_message (C05)",
     ],
     "not_covered": [
-        "parse_conditions / process_single_spend / validate_conditions effects and cross-spend assertions (tier 2)",
+        "the summary contract of parse_conditions is one-directional (accept ==> summary equals the rule spec); rejection for un-modelled reasons (bad keys, message modes) is not characterised",
+        "announcement / concurrent / message / ephemeral bookkeeping and validate_conditions' deferred cross-spend checks; signature pairs (C05)",
         "MempoolVisitor flag bookkeeping (see C19)",
     ],
 }
@@ -117,14 +120,13 @@ PROPS["C04"] = {
     "level": "proof",
     "technique": "Verus contracts on the real cost code (constants, subtract_cost, interned_vbytes, unknown-condition cost indexing) plus exhaustive native evaluation of the 2-byte cost table against the closed form",
     "level_text": "Deductive proof of the cost constants, of subtract_cost (succeeds iff the charge fits, exact at the limit, frame on failure), of interned_vbytes == sum(atom_len)+2*atoms+3*pairs, and of the low-byte indexing of the unknown-condition table; the 65536 values of compute_unknown_condition_cost are decided exhaustively by evaluating the real function against an independent big-integer closed form.",
-    "level_note": "The accounting invariant of parse_conditions and the driver exits (ret.cost == max_cost - cost_left) are not yet under contract: listed in not_covered. CLVM execution cost is whatever run_program returns (assumed).",
-    "components": [V("costs"), V("conditions_parse"), N("native_cost_table", "cost_table")],
+    "level_note": "parse_conditions' accounting is proved: the three accumulators (limit, bundle, spend) move by exactly the table cost of each condition, charged before its arguments are parsed, with CostExceeded exactly when the charge does not fit; SPEND_COST in process_single_spend. The driver exits (ret.cost == max_cost - cost_left) are not yet under contract. CLVM execution cost is whatever run_program returns (assumed).",
+    "components": [V("costs"), V("conditions_effects"), N("native_cost_table", "cost_table")],
     "assumptions": [
         "clvmr cost model (run_program's reported cost) and intern_tree contract",
         "allocator limits (< 2^32 heap bytes / atoms / pairs) as the precondition of interned_vbytes",
     ],
     "not_covered": [
-        "pre-charge accounting invariant in parse_conditions (cost charged before argument parsing, three accumulators)",
         "cost at the exits of run_block_generator / run_block_generator2 / run_spendbundle and the exact-limit lemma",
     ],
 }
@@ -215,6 +217,19 @@ PROPS["C18"] = {
         "equivalence with a plain map over arbitrary histories; tree-shape invariant over the blob bytes",
         "batch_insert body (chunks/slice patterns outside Verus's subset) - its duplicate handling is decided on fixed histories only",
         "delete, dirty-hash propagation / calculate_lazy_hashes, reload equivalence, get_proof_of_inclusion for every key",
+    ],
+}
+
+PROPS["C02"] = {
+    "level": "proof",
+    "technique": "Verus contracts on the real process_single_spend / compute_coin_id / Coin::coin_id / parse_conditions: coin-id formula over the canonical amount, double-spend exclusion via the spent-coin map, duplicate-output exclusion and exact totals",
+    "level_text": "Deductive proof: every accepted spend has a 32-byte parent and puzzle hash and a canonical amount; its coin id is sha256(parent ‖ puzzle hash ‖ canon(amount)) (and Coin::coin_id computes the same formula); the id was not spent before in the bundle (else DoubleSpend); removal_amount grows by exactly the coin amount, addition_amount by exactly the created amounts, no (puzzle hash, amount) is created twice by one spend, u128 totals cannot overflow.",
+    "level_note": "The final conservation test in validate_conditions (additions + fee <= removals) and the puzzle-hash == tree-hash call sites in the drivers are not yet under contract. sha256 uninterpreted; NewCoinSet identity assumed to be (puzzle_hash, amount) as NewCoin's PartialEq/Hash implement it.",
+    "components": [V("conditions_effects"), V("int_encoders")],
+    "assumptions": ["Sha256 ghost model", "HashMap<Arc<Bytes32>, usize> / HashSet<NewCoin> insertion semantics (shims/cond_env.rs)"],
+    "not_covered": [
+        "validate_conditions: MintingCoin / ReserveFeeConditionFailed comparisons over the bundle totals",
+        "drivers: reported puzzle hash is the tree hash of the revealed puzzle (run_block_generator2, run_spendbundle call sites)",
     ],
 }
 
